@@ -32,6 +32,13 @@ Proof. exact on_interrupt_contract. Qed.
 Theorem C02_five_seconds : remove_flush_timeout_ns = 5000000000 /\ flush_timeout_ns = 5000000000.
 Proof. split; reflexivity. Qed.
 
+(** regenerated ordering facts the control steps of Model/Reconf.v rest on: a stage that is handing a
+    chunk on cannot be interrupted (sends are plain statements, never select arms); the per-connection
+    state of a stateful toxic survives every restart; RemoveToxic drops the stub on every way out *)
+Theorem C02_code_facts :
+  toxic_sends_are_plain = true /\ state_created_only_for_new_stubs = true /\ remove_always_splices = true.
+Proof. repeat split; reflexivity. Qed.
+
 (** non-vacuity: a latency stage interrupted mid-sleep, its stub removed while two chunks are
     queued, on a concrete link: the control steps are enabled and the stream is intact *)
 Example C02_nonvacuous :
